@@ -119,6 +119,9 @@ pub fn run(ctx: &Ctx) -> i32 {
             if rf.engine == "netsim" {
                 return replay_one(ctx, &crate::props::net::NetEngine { prop: d.prop }, &rf);
             }
+            if rf.engine == "execheld" {
+                return replay_one(ctx, &crate::engines::reqgrammar::ExecHeldEngine, &rf);
+            }
             if rf.engine == "rtpool" {
                 return replay_one(ctx, &crate::engines::rtpool::RtPoolEngine { prop: d.prop }, &rf);
             }
@@ -216,6 +219,10 @@ pub fn run(ctx: &Ctx) -> i32 {
         // end to end with the real hyper connections: one HTTP/2 connection per origin
         let e2e = crate::props::net::NetEngine { prop: "C04" };
         total.merge(run_generated(ctx, &e2e, "netsim-h2-sharing", || crate::props::net::ordered(crate::props::net::c04_e2e_strategy(8)), ctx.cases(6_000, 300_000), 300));
+    }
+    if d.prop == "C02" {
+        // the crate's own RequestExecutor as the inner service, over a single-use connection that always reports ready
+        total.merge(run_generated(ctx, &crate::engines::reqgrammar::ExecHeldEngine, "request-executor-holds-the-handle", crate::engines::reqgrammar::exec_strategy, ctx.cases(2_000, 60_000), 100));
     }
     if d.prop == "C04" {
         // real time, HTTP/2: a connection in steady use outlives its idle timeout
